@@ -1292,7 +1292,13 @@ Octagonal_Shape<T>::is_disjoint_from(const Octagonal_Shape& y) const {
       }
     }
   }
-  return false;
+  // No pair of opposite bounds is inconsistent, but the two shapes can
+  // still be disjoint because of a cycle of constraints taken alternately
+  // from the two operands: they are disjoint if and only if their
+  // intersection is empty.
+  Octagonal_Shape z(*this);
+  z.intersection_assign(y);
+  return z.is_empty();
 }
 
 template <typename T>
